@@ -13,14 +13,15 @@ theorem beginFile_unsupported (s : Proc) (flags : Nat) (hb : s.beginCalled = fal
   unfold beginFile
   rw [if_neg (by simp [hb]), if_pos (by simpa using hfl)]
 
-theorem packFiles_spec {P : Params} (hP : P.ans = serialAns) (hc : CodecOk P.codec) (hB : P.B < 2 ^ 24) (hBpos : 0 < P.B) :
+theorem packFiles_spec {P : Params} (hP : P.ans = serialAns) (hc : CodecOk P.codec) (hB : P.B < 2 ^ 24) (hBpos : 0 < P.B)
+    (sy : Bool) :
     ∀ (files : List InFile) (s : Proc) (g : Ghost) (W : WSt), PInv P s g 0 W →
       FrontInv P.B s.fe g.front s.w.inodes.length → s.beginCalled = false → g.fin = false →
-      (∃ s' g' W' items, packFiles P s files = .ok s' ∧ feFiles P.B s.w.inodes.length files = .ok items ∧
+      (∃ s' g' W' items, packFiles P s files sy = .ok s' ∧ feFiles P.B s.w.inodes.length files = .ok items ∧
         g'.front = g.front ++ items ∧ g'.fe = g.fe ++ feEffs s.w.inodes.length files ∧ PInv P s' g' 0 W' ∧
         FrontInv P.B s'.fe g'.front s'.w.inodes.length ∧ s'.beginCalled = false ∧ g'.fin = false ∧
         s'.w.inodes.length = s.w.inodes.length + files.length ∧ s'.maxBacklog = s.maxBacklog) ∨
-      (∃ e, packFiles P s files = .error e ∧ feFiles P.B s.w.inodes.length files = .error e ∧ e = .unsupported ∧
+      (∃ e, packFiles P s files sy = .error e ∧ feFiles P.B s.w.inodes.length files = .error e ∧ e = .unsupported ∧
         ∃ f ∈ files, ¬ f.flags &&& blkUserSettable = f.flags) := by
   intro files
   induction files with
@@ -31,7 +32,7 @@ theorem packFiles_spec {P : Params} (hP : P.ans = serialAns) (hc : CodecOk P.cod
     intro s g W h hfe hidle hfin
     by_cases hfl : f.flags &&& blkUserSettable = f.flags
     · obtain ⟨s1, g1, W1, items1, hp1, hf1, hfront1, hgfe1, h1, hfe1, hidle1, hfin1, hil1, hmb1⟩ :=
-        packFile_ok hP hc hB hBpos h hfe hidle hfin f hfl
+        packFile_ok hP hc hB hBpos h hfe hidle hfin f hfl sy
       rcases ih s1 g1 W1 h1 hfe1 hidle1 hfin1 with ⟨s', g', W', items, hp, hf, hfront, hgfe, h', hfe', hidle', hfin', hil, hmb⟩ | ⟨e, hp, hf, he, fb, hfb, hbad⟩
       · left
         refine ⟨s', g', W', items1 ++ items, ?_, ?_, ?_, ?_, h', hfe', hidle', hfin', ?_, hmb.trans hmb1⟩
@@ -256,13 +257,13 @@ structure Final (P : Params) (files : List InFile) (s : Proc) : Prop where
   output : packRef P files = .ok s.w.output
 
 theorem run_final {P : Params} (hP : P.ans = serialAns) (hc : CodecOk P.codec) (hBpos : 0 < P.B) (hB : P.B < 2 ^ 24)
-    (mb : Nat) (files : List InFile) :
-    (∃ s, runProc P mb files = .ok s ∧ Final P files s) ∨
-    (∃ e, runProc P mb files = .error e ∧ packRef P files = .error e ∧ e = .unsupported ∧
+    (mb : Nat) (files : List InFile) (sy : Bool := false) :
+    (∃ s, runProc P mb files sy = .ok s ∧ Final P files s) ∨
+    (∃ e, runProc P mb files sy = .error e ∧ packRef P files = .error e ∧ e = .unsupported ∧
       ∃ f ∈ files, ¬ f.flags &&& blkUserSettable = f.flags) := by
   have h0 := PInv.init P mb
   have hfe0 : FrontInv P.B (create P mb).fe ({} : Ghost).front (create P mb).w.inodes.length := FrontInv.init P.B
-  rcases packFiles_spec hP hc hB hBpos files (create P mb) {} _ h0 hfe0 rfl rfl with
+  rcases packFiles_spec hP hc hB hBpos sy files (create P mb) {} _ h0 hfe0 rfl rfl with
     ⟨s1, g1, W1, items, hp, hf, hfront, hgfe, h1, hfe1, hidle1, hfin1, hil, hmb⟩ | ⟨e, hp, hf, he, hbad⟩
   · left
     obtain ⟨s2, g2, W2, hfn, h2, hi2, hq2, hb2, hfront2, hgfe2, hil2, hF2⟩ := finish_ok hP hc hB h1 hfe1 hidle1 hfin1
@@ -321,9 +322,9 @@ theorem run_final {P : Params} (hP : P.ans = serialAns) (hc : CodecOk P.codec) (
       rw [hf]
 
 theorem run_eq_packRef {P : Params} (hP : P.ans = serialAns) (hc : CodecOk P.codec) (hBpos : 0 < P.B) (hB : P.B < 2 ^ 24)
-    (mb : Nat) (files : List InFile) : run P mb files = packRef P files := by
+    (mb : Nat) (files : List InFile) (sy : Bool := false) : run P mb files sy = packRef P files := by
   unfold run
-  rcases run_final hP hc hBpos hB mb files with ⟨s, hr, hf⟩ | ⟨e, hr, hp, _⟩
+  rcases run_final hP hc hBpos hB mb files sy with ⟨s, hr, hf⟩ | ⟨e, hr, hp, _⟩
   · rw [hr, hf.output]
   · rw [hr, hp]
 
